@@ -49,6 +49,9 @@ def hadd (h : Hdr) (k v : String) : Hdr :=
   | some _ => h.map (fun p => if p.1 == ck then (p.1, p.2 ++ [v]) else p)
   | none => h ++ [(ck, [v])]
 
+/-- `h[CanonicalHeaderKey(k)] = nil`. -/
+def hnil (h : Hdr) (k : String) : Hdr := hdelRaw h (canonKey k) ++ [(canonKey k, [])]
+
 def hVary := "Vary"
 def hAccept := "Accept"
 def hAcceptEncoding := "Accept-Encoding"
@@ -286,6 +289,9 @@ inductive Op where
   | set (k v : String)
   | add (k v : String)
   | del (k : String)
+  /-- `w.Header()[CanonicalHeaderKey(k)] = nil`: the key present with NO value — net/http's documented way of
+  suppressing an automatic header (for Content-Type: no sniffing) -/
+  | unset (k : String)
   | wh (code : Nat)
   | w (b : Bytes)
   /-- `if f, ok := w.(http.Flusher); ok { f.Flush() }` -/
@@ -297,6 +303,7 @@ def hop : Op → Hdr → Hdr
   | .set k v, h => hset h k v
   | .add k v, h => hadd h k v
   | .del k, h => hdel h k
+  | .unset k, h => hnil h k
   | _, h => h
 
 def hops (ops : List Op) (h : Hdr) : Hdr := ops.foldl (fun h o => hop o h) h
@@ -428,6 +435,7 @@ def decision {Z} (C : Cfg Z) (cf : Bool) (h : Hdr) : List Op → Option (Hdr × 
   | .set k v :: r => decision C cf (hset h k v) r
   | .add k v :: r => decision C cf (hadd h k v) r
   | .del k :: r => decision C cf (hdel h k) r
+  | .unset k :: r => decision C cf (hnil h k) r
 
 /-- The conditions under which the code compresses. -/
 def shouldCompress {Z} (C : Cfg Z) (head : Bool) (req : Hdr) (h0 : Hdr) (ops : List Op) : Bool :=
